@@ -20,9 +20,10 @@ SHAPES = ["single", "unary1", "pair", "pair3", "parallel", "unarypair", "isolate
           "twocomp", "star4", "cycle4", "tritail", "kite"]
 
 
-def make(inst, nagents):
+def make(inst, nagents, spare=0):
+    """`spare` more agents are declared after the ones the distribution may use (agents that host nothing are legitimate)"""
     dcop, doms = build_dcop(inst)
-    for i in range(nagents):
+    for i in range(nagents + spare):
         dcop.add_agents([AgentDef("a%d" % i, capacity=1000)]) if False else dcop._agents_def.__setitem__("a%d" % i, AgentDef("a%d" % i, capacity=1000))
     return dcop, doms
 
@@ -37,10 +38,11 @@ def distribution_for(kind, dcop, cg, r):
         # property quantifies over valid distributions, whatever produced them
         return mod.distribute(cg, dcop.agents.values(), hints=None, computation_memory=lambda *a, **k: 1,
                               communication_load=lambda *a, **k: 1)
-    # any valid mapping: every computation on exactly one agent
-    mapping = {a: [] for a in agents}
+    # any valid mapping: every computation on exactly one agent (spare agents, declared last, host nothing)
+    used = agents[:max(1, len(agents) - getattr(dcop, "_verif_spare", 0))]
+    mapping = {a: [] for a in used}          # the spare agents are not part of the distribution at all
     for c in comps:
-        mapping[r.choice(agents)].append(c)
+        mapping[r.choice(used)].append(c)
     return Distribution(mapping)
 
 
@@ -59,12 +61,14 @@ def outcome(hid, inst, doms, dcop, orch, stuck, infinity):
 
 
 def simulated(hid, inst, kind, nagents, r):
-    dcop, doms = make(inst, nagents)
+    spare = r.choice([0, 0, 1, 2]) if kind == "random" else 0
+    dcop, doms = make(inst, nagents, spare)
+    dcop._verif_spare = spare
     cg = pseudotree.build_computation_graph(dcop)
     algo = AlgorithmDef.build_with_default_param("dpop", {}, mode=dcop.objective)
     dist = distribution_for(kind, dcop, cg, r)
     w = OrchWorld(dcop, algo, cg, dist, infinity=INFV, seed=r.randrange(10 ** 6))
-    w.boot_all(order=r)
+    w.boot_all(order=r, lazy=r.random() < 0.5)
     stuck = w.solve()
     if w.exc:
         stuck = (stuck or "") + " exception in %s handling %s: %s" % (w.exc[0][0], w.exc[0][3], w.exc[0][4])
@@ -73,7 +77,9 @@ def simulated(hid, inst, kind, nagents, r):
 
 def threaded(hid, inst, kind, nagents, r):
     from pydcop.infrastructure.run import run_local_thread_dcop
-    dcop, doms = make(inst, nagents)
+    spare = r.choice([0, 1]) if kind == "random" else 0
+    dcop, doms = make(inst, nagents, spare)
+    dcop._verif_spare = spare
     cg = pseudotree.build_computation_graph(dcop)
     algo = AlgorithmDef.build_with_default_param("dpop", {}, mode=dcop.objective)
     dist = distribution_for(kind, dcop, cg, r)
